@@ -9,7 +9,9 @@ import (
 	"flag"
 	"fmt"
 	"os"
+	"os/signal"
 	"path/filepath"
+	"syscall"
 	"time"
 
 	"github.com/spq/pkappa2/verif/sim"
@@ -36,6 +38,8 @@ func main() {
 	minOut := flag.String("minout", "", "output for minimised replay file")
 	minBudget := flag.Int("minbudget", 300, "max executions while minimising")
 	flag.Parse()
+	// write-error faults use RLIMIT_FSIZE; the signal that comes with it is ignored
+	signal.Ignore(syscall.SIGXFSZ)
 	if *scratch == "" {
 		d, err := os.MkdirTemp("", "simworker")
 		if err != nil {
